@@ -67,14 +67,6 @@ class Speller(object):
         raise ValueError(m)
 
 
-def next_period_finding(f, cls, P, unit):
-    """D-pastify-next-period: the pastifier counts next/s_next as a delay of 1 *default time unit*
-    instead of 1 sampling period.  Precondition: pastified, formula has next/s_next, period != 1 unit."""
-    if cls == 'pastified' and (lang.ops_of(f) & set(['next', 's_next'])) and P != U[unit]:
-        return 'D-pastify-next-period'
-    return None
-
-
 MODES = ('default', 'both', 'same-suffix', 'end-only', 'begin-only', 'const', 'const-suffix')
 
 
@@ -120,7 +112,6 @@ class C08(Prop):
             c.future = True
             c.max_depth = min(c.max_depth, 3)
             c.transcend = False
-            c.prevnext = rng.random() < 0.3
         for _ in range(100):
             f = lang.gen_formula(rng, c)
             if any(g[1] is not None for g in lang.walk(f)) and (cls != 'pastified' or 0 < lang.horizon(f) <= 8):
@@ -211,8 +202,7 @@ class C08(Prop):
         try:
             got = self.run_disc(cls, sd, names, data, n, times)
         except Exception as e:
-            known = next_period_finding(f, cls, P, unit) if (
-                drive.is_rtamt_exc(e) and 'multiple of the sampling period' in str(e)) else None
+            known = None
             v.bad('notation-raises:%s:%s' % (mode, type(e).__name__), '%s [unit=%s period=%s%s, %s] raised %s: %s; '
                   'canonical %s returns' % (text, unit, period[0], period[1], cls, type(e).__name__, e, lang.to_text(f)),
                   known)
@@ -226,8 +216,7 @@ class C08(Prop):
             if not refd.same(got[i], base[i], rel):
                 v.bad('notation-differs:' + mode, '%s [unit=%s period=%s%s consts=%s, %s] gives %r at #%d, canonical '
                       '%s (period 1 s) gives %r; data=%s' % (text, unit, period[0], period[1], sp.consts, cls, got[i], i,
-                                                            lang.to_text(f), base[i], data),
-                      next_period_finding(f, cls, P, unit))
+                                                            lang.to_text(f), base[i], data))
                 break
         return v
 
@@ -258,7 +247,7 @@ class C08(Prop):
                 v.bad('nonmultiple-wrong-exception:' + type(e).__name__, '%s with period %s%s raised %s: %s (expected '
                       'RTAMTException)' % (text, period[0], period[1], type(e).__name__, e))
             return v
-        known = 'D-pastify-nonmultiple' if (online and op in ('eventually', 'always', 'until')) else None
+        known = None
         v.bad('nonmultiple-accepted', '%s with period %s%s (bound not a multiple of the period) was evaluated%s: %r' % (
             text, period[0], period[1], ' after pastify()' if known else '', got), known)
         return v
